@@ -9,6 +9,17 @@ import (
 
 // ---- random graphs (≤ 6 types, every reference form, MISSING types) ----
 
+// Options of the random generator.
+type Options struct {
+	Missing     bool // some graphs reference undefined types
+	Enums       bool // literals with {enum: @e0} (strings "ab","cd") / {enum: @e1} (integers 1,2,3); the caller registers the rules
+	OrContainer bool // rarely: `{} // {or: [{type: "object"}, {type: "string"}]}` / `[] // {or: […]}`
+	StringRules bool // string key types with regex / minLength
+}
+
+// EnumRules: the enum rules the generated texts may mention (Options.Enums).
+var EnumRules = [][2]string{{"@e0", `["ab", "cd"]`}, {"@e1", `[1, 2, 3]`}}
+
 type tsort int
 
 const (
@@ -24,6 +35,7 @@ type gen struct {
 	names   []string
 	sorts   []tsort
 	missing bool // may reference undefined types
+	opts    Options
 	keyNo   int
 	cur     int // index of the type whose body is generated (len(names) for the root)
 }
@@ -128,7 +140,29 @@ func (g *gen) value(depth int) *tg.Node {
 	case x < 85:
 		return g.litRef()
 	}
-	return &tg.Node{Kind: tg.KLit, Lit: []string{"1", `"ab"`, "true"}[g.r.Intn(3)]}
+	return g.leaf()
+}
+
+func (g *gen) leaf() *tg.Node {
+	if g.opts.OrContainer && g.r.Intn(25) == 0 {
+		if g.r.Intn(2) == 0 {
+			return &tg.Node{Kind: tg.KObj, OrRule: []string{`{type: "object"}`, `{type: "string"}`}}
+		}
+		return &tg.Node{Kind: tg.KArr, OrRule: []string{`{type: "integer"}`, `{type: "array"}`}}
+	}
+	if g.opts.Enums && g.r.Intn(4) == 0 {
+		if g.r.Intn(2) == 0 {
+			return &tg.Node{Kind: tg.KLit, Lit: `"ab"`, Extra: "enum: @e0"}
+		}
+		return &tg.Node{Kind: tg.KLit, Lit: "1", Extra: "enum: @e1"}
+	}
+	n := &tg.Node{Kind: tg.KLit, Lit: []string{"1", `"ab"`, "true", "null", "2.50", `"a\"b\\ \u00e9é"`}[g.r.Intn(6)]}
+	if !g.opts.Enums { // the C09 mirror knows integer / string / boolean leaves only
+		n.Lit = []string{"1", `"ab"`, "true"}[g.r.Intn(3)]
+	} else if g.r.Intn(6) == 0 {
+		n.Nullable = true
+	}
+	return n
 }
 
 func (g *gen) object(depth int) *tg.Node {
@@ -180,15 +214,27 @@ func (g *gen) body(s tsort) *tg.Node {
 		return n
 	case sInt:
 		if g.r.Intn(3) == 0 {
+			if g.opts.Enums && g.r.Intn(3) == 0 {
+				return &tg.Node{Kind: tg.KLit, Lit: "1", Extra: "enum: @e1"}
+			}
 			return &tg.Node{Kind: tg.KLit, Lit: "1"}
 		}
 		return g.litRef()
 	}
-	return &tg.Node{Kind: tg.KLit, Lit: `"ab"`}
+	n := &tg.Node{Kind: tg.KLit, Lit: `"ab"`}
+	if g.opts.StringRules {
+		n.Extra = []string{"", "", `regex: "a.*"`, "minLength: 1", `regex: "^[a-c]+$", maxLength: 5`}[g.r.Intn(5)]
+	}
+	if g.opts.Enums && n.Extra == "" && g.r.Intn(4) == 0 {
+		n.Extra = "enum: @e0"
+	}
+	return n
 }
 
-func randomGraph(r *rand.Rand, maxTypes int) *tg.Graph {
-	g := &gen{r: r, missing: r.Intn(4) == 0}
+// RandomGraph: a random type graph over 1..maxTypes user types (plus, with Options.Missing, up to two
+// undefined names) using every reference form.
+func RandomGraph(r *rand.Rand, maxTypes int, opts Options) *tg.Graph {
+	g := &gen{r: r, missing: opts.Missing && r.Intn(4) == 0, opts: opts}
 	n := 1 + r.Intn(maxTypes)
 	for i := 0; i < n; i++ {
 		g.names = append(g.names, fmt.Sprintf("@t%d", i))
